@@ -9,6 +9,7 @@ import (
 
 	abci "github.com/tendermint/tendermint/abci/types"
 	"github.com/tendermint/tendermint/consensus"
+	tmproto "github.com/tendermint/tendermint/proto/tendermint/types"
 	"github.com/tendermint/tendermint/types"
 	"pgregory.net/rapid"
 
@@ -449,6 +450,9 @@ func (res *Result) finish(p *Persist, n *PNode) {
 	if v := CheckSignLog(p.SignLog); v != "" {
 		res.fail("C04", v)
 	}
+	if v := CheckLockRule(p); v != "" {
+		res.fail("C02", v)
+	}
 	var bs BlockLoader
 	if n != nil && n.BlockStore != nil {
 		bs = n.BlockStore
@@ -494,6 +498,94 @@ func CheckSignLog(log []SignRec) string {
 		if !bytes.Equal(f.Sig, rec.Sig) || !bytes.Equal(f.SignBytes, rec.SignBytes) {
 			return fmt.Sprintf("key re-signed the same %s for h=%d r=%d instead of reusing the earlier signature (timestamps %v / %v): [%v] then [%v]",
 				rec.Kind, rec.H, rec.R, f.Time, rec.Time, f, rec)
+		}
+	}
+	return ""
+}
+
+// CheckLockRule is the last sentence of C02 over everything the node signed and heard in all its incarnations: once
+// it has precommitted a block it prevotes nothing else in later rounds of that height until it has received a more
+// recent two-thirds prevote quorum for something else. "Received" = handed over by the harness before that prevote
+// (a vote lost in a crash only makes the rule more permissive) plus the node's own prevotes.
+func CheckLockRule(p *Persist) string {
+	power := map[string]int64{}
+	var total int64
+	for _, v := range p.GenDoc.Validators {
+		power[string(v.Address)] = v.Power
+		total += v.Power
+	}
+	self := string(lib.Key(p.Key).PubKey().Address())
+	pub := stded.PublicKey(lib.Key(p.Key).PubKey().Bytes())
+	type hr struct {
+		h int64
+		r int32
+	}
+	// prevote tallies per (height, round): value -> validator -> seen
+	seen := map[hr]map[string]map[string]bool{}
+	add := func(h int64, r int32, val, who string) {
+		k := hr{h, r}
+		if seen[k] == nil {
+			seen[k] = map[string]map[string]bool{}
+		}
+		if seen[k][val] == nil {
+			seen[k][val] = map[string]bool{}
+		}
+		seen[k][val][who] = true
+	}
+	quorumForOther := func(h int64, after int32, locked string) bool {
+		for k, vals := range seen {
+			if k.h != h || k.r <= after {
+				continue
+			}
+			for val, who := range vals {
+				if val == locked {
+					continue
+				}
+				var sum int64
+				for w := range who {
+					sum += power[w]
+				}
+				if sum*3 > total*2 {
+					return true
+				}
+			}
+		}
+		return false
+	}
+	lockR := map[int64]int32{}
+	lockB := map[int64]string{}
+	lockRec := map[int64]SignRec{}
+	si, hi := 0, 0
+	for si < len(p.SignLog) || hi < len(p.Heard) {
+		if hi < len(p.Heard) && (si >= len(p.SignLog) || p.Heard[hi].Seq < p.SignLog[si].Seq) {
+			v := p.Heard[hi].Vote
+			hi++
+			if v.Type == tmproto.PrevoteType {
+				if _, known := power[string(v.ValidatorAddress)]; known && string(v.ValidatorAddress) != self {
+					add(v.Height, v.Round, v.BlockID.Key(), string(v.ValidatorAddress))
+				}
+			}
+			continue
+		}
+		rec := p.SignLog[si]
+		si++
+		if !stded.Verify(pub, rec.SignBytes, rec.Sig) {
+			continue
+		}
+		switch rec.Kind {
+		case "precommit":
+			if !rec.BlockID.IsZero() {
+				lockR[rec.H], lockB[rec.H], lockRec[rec.H] = rec.R, rec.BlockID.Key(), rec
+			}
+		case "prevote":
+			if b, locked := lockB[rec.H]; locked && rec.R > lockR[rec.H] && rec.BlockID.Key() != b {
+				if !quorumForOther(rec.H, lockR[rec.H], b) {
+					return fmt.Sprintf("the validator precommitted a block [%v] and later prevoted something else [%v] without having received a two-thirds prevote quorum for anything else in a round after %d", lockRec[rec.H], rec, lockR[rec.H])
+				}
+				delete(lockB, rec.H) // justified: the quorum for something else released the lock
+				delete(lockR, rec.H)
+			}
+			add(rec.H, rec.R, rec.BlockID.Key(), self)
 		}
 	}
 	return ""
